@@ -107,6 +107,23 @@ def run(pid, tier, seed):
                     res.known_lines.append("%s: %s" % (e["id"], e["text"]))
             else:
                 res.notes.append("known finding %s no longer reproduces for %s: %s" % (e["id"], fam, json.dumps(out)[:300]))
+    if pid in ("C01", "C16"):
+        # benign re-entrant hooks: outside the contracts (hook frame assumption), pinned by a handful of concrete scenarios
+        out = driver.harness_json("reentrant.py", "search", {}, timeout=600)
+        res.bounded.append({"what": "BOUNDED scenarios (never counted as proved): a notification hook that itself performs a valid "
+                            "structural operation on other nodes (evicts / adds a sibling in _pre_attach, _pre_detach, _post_detach, "
+                            "_pre_attach_children, _pre_detach_children): the two views stay consistent, _post_attach sees the node as "
+                            "the last child, the final children lists are the expected ones",
+                            "bound": "6 scenarios x 2 mixin families on a fixed 6-node forest", "evaluations": out.get("evaluations", 0),
+                            "distinct_nontrivial": out.get("nontrivial", 0), "rule": "one case = (family, scenario)",
+                            "found": out.get("found")})
+        if out.get("found"):
+            path = driver.write_replay(res, "bounded:reentrant:" + json.dumps(out["case"], sort_keys=True),
+                                       {"property": pid, "case": out["case"], "observed": out["result"], "harness": "reentrant.py",
+                                        "how_found": "re-entrant hook scenario"})
+            res.violations.append({"obligation": "bounded:reentrant", "replay": path, "input_found": True})
+        elif out.get("error"):
+            res.faults.append("re-entrant scenarios failed to run: %s" % out["error"][-300:])
     if tier == "thorough":
         kn = [e["id"] for e in known.entries() if e["status"] == "known"]
         out = driver.harness_json("mutators.py", "search", {"properties": [pid], "nodes": 3, "maxlen": 2, "known": kn,
@@ -132,6 +149,10 @@ def replay(pid, path):
     if "case" not in d:
         print("replay file names failed obligations only (no concrete input): %s" % d.get("failed_obligations", [])[:3])
         return 1
+    if d.get("harness") == "reentrant.py":
+        out = driver.harness_json("reentrant.py", "replay", d["case"])
+        print(json.dumps(out, indent=1)[:3000])
+        return 1 if out.get("violation") else 0
     out = driver.harness_json("mutators.py", "replay", d["case"])
     print(json.dumps(out, indent=1)[:3000])
     return 1 if out.get("violations") else 0
